@@ -25,6 +25,9 @@ from harness import core
 LEVEL = "model_checking"
 WORKER = "harness.workers.oco_run"
 TOL = 1e-9          # x64 implementation vs float64 evaluation of the spec's closed forms
+# ADA_FD inverts alpha + sqrt(l): where the lattice mass l is exactly 0 the implementation holds ~1e-16 and
+# the square root turns that into ~1e-8 (Hoelder-1/2, not Lipschitz): the iterate agrees to ~1e-8/alpha^2 only
+TOL_ADAFD = 1e-4
 SKETCHED = ("S_ADA", "ADA_FD", "FD_SON", "RFD_SON")
 
 
@@ -102,6 +105,7 @@ def judge_lattice(b, job, aux, r, worst):
   d, lr, delta = c["d"], aux["lr"], aux["delta"]
   w = np.zeros(d)
   wfm = np.zeros(d)
+  alpha_zero = False     # a non-zero gradient has been preconditioned while the spec's alpha was exactly 0
   for s, (st, rl) in enumerate(zip(b["steps"], r["steps"])):
     term, exp = st["term"], st["exp"]
     g = np.asarray(job["grads"][s])
@@ -132,7 +136,16 @@ def judge_lattice(b, job, aux, r, worst):
         detail=f"alpha {rl['alpha']} vs {exp['alpha2']}/{2 * c['dD']};")
     if rl["t"] != exp["tc"]:
       out.append(("step_count_mismatch", f"step {s + 1}: t = {rl['t']} vs {exp['tc']}"))
-    bad("iterate_mismatch", rel(rl["w"], w), detail=f"w {rl['w']} vs closed form {w.tolist()};")
+    if exp["alpha2"] == 0 and st["in"]["a"] > 0:
+      alpha_zero = True
+    if alpha_zero:
+      # inv(alpha) is discontinuous at alpha = 0 (safe_invert gives 0, any rounding residue gives 1/tiny):
+      # kept apart from the well-posed comparison, under its own clause
+      bad("alpha=0|iterate_mismatch", rel(rl["w"], w), detail=f"w {rl['w']} vs closed form {w.tolist()};")
+    elif c["alg"] == "ADA_FD":
+      bad("iterate_mismatch_adafd", rel(rl["w"], w), tol=TOL_ADAFD, detail=f"w {rl['w']} vs closed form {w.tolist()};")
+    else:
+      bad("iterate_mismatch", rel(rl["w"], w), detail=f"w {rl['w']} vs closed form {w.tolist()};")
     if c["alg"] == "S_ADA" and delta > 0 and exp["lossless"]:
       # exact full-matrix AdaGrad: w -= lr (delta I + G_s)^(-1/2) g_s,  G_s = Q diag(cov_s) Q^T
       G = Q @ np.diag(np.asarray(exp["cov"], float)) @ Q.T
@@ -203,7 +216,12 @@ def judge_dense(b, job, r, worst):
 
 def report(ck, b, job, verdicts, label):
   c = b["cfg"]
-  for clause, detail in verdicts[:1]:
+  # one report per distinct clause, the well-posed ones first
+  seen = set()
+  for clause, detail in sorted(verdicts, key=lambda v: v[0].startswith("alpha=0")):
+    if clause in seen:
+      continue
+    seen.add(clause)
     ck.violation(f"oco|{c['alg']}|{clause}",
                  f"{label}: {c['alg']} d={c['d']} sketch_size={c['k']} delta={c['dN']}/{c['dD']} "
                  f"lr={c['lrN']}/{c['lrD']}: {detail}",
@@ -213,8 +231,8 @@ def report(ck, b, job, verdicts, label):
 # ------------------------------------------------------------------------------------------------------
 # V: dense histories, measured margins
 # ------------------------------------------------------------------------------------------------------
-FP = 10 ** 8        # fixed-point scale of the logged margins (relative to the trace of the covariance)
-VTOL = 1e-7         # tolerance the trace spec applies to the measured margins (relative)
+FP = 10 ** 9        # fixed-point scale of the logged margins (relative to the trace of the covariance)
+VTOL = 1e-6         # tolerance the trace spec applies to the measured margins (relative)
 
 
 def v_jobs(ck, n):
@@ -256,6 +274,7 @@ def v_trace(job, r):
   Pp, ep = np.zeros((k, d)), np.zeros(k)
   alpha_p, esc = delta, 0.0
   ev = []
+  raw = {"lo": 0.0, "hi": 0.0, "aerr": 0.0}
   for s, rl in enumerate(r["steps"]):
     t = s + 1
     fac = {"RFD_SON": (t * lr) ** -0.5, "FD_SON": (math.sqrt(t) * lr) ** -0.5}.get(alg, 1.0)
@@ -279,6 +298,7 @@ def v_trace(job, r):
       rank = int(np.sum(e ** 2 > 1e-12 * max(float(np.max(e ** 2)), 1e-300)))
       lossless = bool(np.linalg.matrix_rank(G[:t] * 1.0, tol=1e-9 * max(1e-300, float(np.max(np.abs(G[:t]))))) <= k - 1)
       escrel = esc / scale
+      raw = {"lo": max(raw["lo"], -lo), "hi": max(raw["hi"], -hi), "aerr": max(raw["aerr"], aerr)}
     else:
       lo = hi = -1.0
       aerr, rank, lossless, escrel = 1.0, 0, False, 0.0
@@ -288,7 +308,7 @@ def v_trace(job, r):
                "aerr": clip(math.ceil(aerr * FP)),                                     # residual rounded up
                "rank": rank, "lossless": lossless, "escfp": clip(math.ceil(escrel * FP))})
     Pp, ep, alpha_p = P, e, rl["alpha"]
-  return {"cfg": cfg, "events": ev}
+  return {"cfg": cfg, "events": ev, "raw": raw}
 
 
 def run(ck):
@@ -355,10 +375,13 @@ def run(ck):
   if not nd["OGD"] or not nd["ADA"]:
     raise core.MachineryError(f"vacuous dense replay {nd}")
   for kname, vworst in worst.items():
-    ck.calib(kname, vworst, TOL)
+    if kname != "alpha=0|iterate_mismatch":
+      ck.calib(kname, vworst, TOL_ADAFD if kname.endswith("adafd") else TOL)
+  ck.cov["alpha_zero_iterate_deviation_worst"] = worst.get("alpha=0|iterate_mismatch", 0.0)
   # binding self-tests (R): corrupt one expected value / one observed value of a behaviour that passed
   okk = next(i for i, (b, j, a, r) in enumerate(zip(lattice, jobs, auxs, res))
-             if b["cfg"]["alg"] == "S_ADA" and not judge_lattice(b, j, a, r, {}) and b["steps"][-1]["exp"]["esc"] > 0)
+             if b["cfg"]["alg"] == "S_ADA" and not judge_lattice(b, j, a, r, {}) and b["steps"][-1]["exp"]["esc"] > 0
+             and b["steps"][0]["in"]["a"] > 0 and b["cfg"]["dN"] > 0)
   b0, j0, a0, r0 = lattice[okk], jobs[okk], auxs[okk], res[okk]
   b1 = copy.deepcopy(b0); b1["steps"][0]["term"]["num"] += 1
   b2 = copy.deepcopy(b0); b2["steps"][-1]["exp"]["alpha2"] += 1
@@ -377,15 +400,16 @@ def run(ck):
   vj = v_jobs(ck, 240 if quick else 3000)
   vres = core.run_workers(WORKER, [{k: v for k, v in j.items() if k != "kind"} for j in vj], x64=True, work=ck.work)
   traces = [v_trace(j, r) for j, r in zip(vj, vres)]
-  verdicts = ck.validate("OCO_Trace", "OCO_Trace", traces)
+  verdicts = ck.validate("OCO_Trace", "OCO_Trace", [{"cfg": t["cfg"], "events": t["events"]} for t in traces])
   wl = wh = wa = 0.0
   nloss = 0
   for j, t, v in zip(vj, traces, verdicts):
     ck.count(1, key=["V", j["alg"], j["k"], j["delta"], j["lr"], j["kind"], j["grads"][0][:2]])
     for e in t["events"]:
       if e["err"] == "none" and e["finite"]:
-        wl, wh, wa = max(wl, -e["lo"] / FP), max(wh, -e["hi"] / FP), max(wa, e["aerr"] / FP)
         nloss += e["lossless"]
+    if v["accepted"] and "raw" in t:
+      wl, wh, wa = max(wl, t["raw"]["lo"]), max(wh, t["raw"]["hi"]), max(wa, t["raw"]["aerr"])
     if v["accepted"]:
       ck.traces_ok(1)
     else:
@@ -401,7 +425,7 @@ def run(ck):
   if nloss == 0:
     raise core.MachineryError("vacuous V leg: no lossless step in the dense histories")
   ck.sample({"recorded_trace": {"cfg": traces[0]["cfg"], "events": traces[0]["events"][:3]}})
-  acc = [t for t, v in zip(traces, verdicts) if v["accepted"]]
+  acc = [{"cfg": t["cfg"], "events": t["events"]} for t, v in zip(traces, verdicts) if v["accepted"]]
   t0 = copy.deepcopy(acc[0]); t0["events"][-1]["lastzero"] = False
   t1 = copy.deepcopy(next(t for t in acc if any(e["escfp"] > 0 for e in t["events"])))
   t1["events"][-1]["hi"] = -int(1e-3 * FP)
